@@ -635,6 +635,12 @@ func stateRules(c *Ctx) {
 		rangeDelete(c, g, short1)
 		// ---- an in-place reversal whose bound is right for some lengths only
 		swapReversal(c, g, short1)
+		// ---- a goroutine that counts itself in; same-named parameters handed over crosswise; package-level
+		// backing arrays behind results; one scratch buffer for every worker
+		addInsideGoroutine(c, g, short1)
+		swappedArguments(c, g, short1)
+		globalBacking(c, g, short1)
+		goSharedScratch(c, g, short1)
 	}
 	// parsers that link features to a local Sequence (shared by C01, C14, C15)
 	switch c.Prop {
@@ -2558,4 +2564,284 @@ func swapReversal(c *Ctx, g *ssa.Function, short1 string) {
 			c.bad("STATE", key, hdr.Instrs[0].Pos(), fmt.Sprintf("%s reverses a slice in place by exchanging elements from both ends; the loop's bound gives the exact reversal for %d of the lengths 0..8 but not for length %d (positions end up as %s instead of the mirror image): a pair near the centre is left alone or exchanged twice", short1, exact, firstBad, badWhat))
 		}
 	}
+}
+
+// addInsideGoroutine: a goroutine announces itself to a WaitGroup from the inside (wg.Add(1) as it starts)
+// while the function that started it Waits on that WaitGroup: Wait can run before the goroutine has got as far
+// as its Add, return, and let the starter go on (close a channel the goroutine is about to send on, return a
+// result the goroutine has not written yet).
+func addInsideGoroutine(c *Ctx, g *ssa.Function, short1 string) {
+	eachInstr(g, func(i ssa.Instruction) {
+		gi, ok := i.(*ssa.Go)
+		if !ok {
+			return
+		}
+		var body *ssa.Function
+		switch v := gi.Call.Value.(type) {
+		case *ssa.MakeClosure:
+			body, _ = v.Fn.(*ssa.Function)
+		case *ssa.Function:
+			body = v
+		}
+		if body == nil || body.Blocks == nil {
+			return
+		}
+		// Add in the goroutine's own entry region, on a WaitGroup that is not made in the goroutine
+		var add ssa.CallInstruction
+		eachInstr(body, func(j ssa.Instruction) {
+			cj, ok := j.(ssa.CallInstruction)
+			if !ok || calleeName(cj) != "(*sync.WaitGroup).Add" || add != nil {
+				return
+			}
+			if _, isDefer := j.(*ssa.Defer); isDefer {
+				return
+			}
+			recv := unwrap(cj.Common().Args[0])
+			if a, isA := recv.(*ssa.Alloc); isA && a.Parent() == body {
+				return
+			}
+			if j.Block() == body.Blocks[0] {
+				add = cj
+			}
+		})
+		if add == nil {
+			return
+		}
+		// the starter (or the function the literal sits in) waits on a WaitGroup
+		waits := false
+		for f := g; f != nil; f = f.Parent() {
+			eachInstr(f, func(j ssa.Instruction) {
+				if cj, ok := j.(ssa.CallInstruction); ok && calleeName(cj) == "(*sync.WaitGroup).Wait" {
+					waits = true
+				}
+			})
+		}
+		if !waits {
+			return
+		}
+		// not counted by the starter as well
+		counted := false
+		for _, in := range gi.Block().Instrs {
+			if in == ssa.Instruction(gi) {
+				break
+			}
+			if cj, ok := in.(ssa.CallInstruction); ok && calleeName(cj) == "(*sync.WaitGroup).Add" {
+				counted = true
+			}
+		}
+		if counted {
+			return
+		}
+		c.bad("STATE", "add-inside-goroutine:"+short1, add.Pos(), fmt.Sprintf("%s starts a goroutine that calls wg.Add itself, after it has started, and a Wait on that WaitGroup decides when the work is over: Wait can return before the goroutine has been counted, so what follows the Wait (closing the channel, returning) overtakes it", short1))
+	})
+}
+
+// swappedArguments: a call hands two of the caller's parameters to a callee whose parameters carry the SAME
+// two names in the opposite positions (f(…, doubleStranded, circular) for f(…, circular, doubleStranded bool)).
+func swappedArguments(c *Ctx, g *ssa.Function, short1 string) {
+	eachInstr(g, func(i ssa.Instruction) {
+		ci, ok := i.(ssa.CallInstruction)
+		if !ok {
+			return
+		}
+		callee := ci.Common().StaticCallee()
+		if callee == nil || !inModule(callee) || callee.Signature.Variadic() {
+			return
+		}
+		args := ci.Common().Args
+		if len(args) != len(callee.Params) {
+			return
+		}
+		for a := 0; a < len(args); a++ {
+			pa, okA := unwrap(args[a]).(*ssa.Parameter)
+			if !okA || pa.Parent() != g {
+				continue
+			}
+			for b := a + 1; b < len(args); b++ {
+				pb, okB := unwrap(args[b]).(*ssa.Parameter)
+				if !okB || pb.Parent() != g || pa == pb {
+					continue
+				}
+				if !types.Identical(pa.Type(), pb.Type()) {
+					continue
+				}
+				if pa.Name() == callee.Params[b].Name() && pb.Name() == callee.Params[a].Name() && pa.Name() != pb.Name() && pa.Name() != "_" && pb.Name() != "_" {
+					c.bad("STATE", "swapped-arguments:"+short1, i.Pos(), fmt.Sprintf("%s passes its parameters %s and %s to %s in positions %d and %d, where that function's parameters are called %s and %s: the two values of the same type are handed over crosswise", short1, pa.Name(), pb.Name(), fname(callee), a+1, b+1, callee.Params[a].Name(), callee.Params[b].Name()))
+					return
+				}
+			}
+		}
+	})
+}
+
+// globalBacking: a slice cut from a package-level slice without limiting its capacity (table[:1], buffer[:0])
+// is appended onto, or becomes part of what the function returns: the elements land in (or the result keeps
+// pointing into) the package-level backing array, which the next call cuts from again.
+func globalBacking(c *Ctx, g *ssa.Function, short1 string) {
+	tb := newTB(g)
+	eachInstr(g, func(i ssa.Instruction) {
+		sl, ok := i.(*ssa.Slice)
+		if !ok || sl.Max != nil {
+			return
+		}
+		ld, isLd := sl.X.(*ssa.UnOp)
+		if !isLd || ld.Op.String() != "*" {
+			return
+		}
+		gl, isGl := ld.X.(*ssa.Global)
+		if !isGl || gl.Pkg == nil || !strings.HasPrefix(gl.Pkg.Pkg.Path(), modPath) {
+			return
+		}
+		if _, isSlice := sl.X.Type().Underlying().(*types.Slice); !isSlice {
+			return
+		}
+		// forward closure of the cut slice
+		seen := map[ssa.Value]bool{}
+		work := []ssa.Value{sl}
+		var hit ssa.Instruction
+		how := ""
+		for len(work) > 0 && hit == nil {
+			v := work[len(work)-1]
+			work = work[:len(work)-1]
+			if seen[v] || v.Referrers() == nil {
+				continue
+			}
+			seen[v] = true
+			for _, r := range *v.Referrers() {
+				switch x := r.(type) {
+				case *ssa.Phi:
+					work = append(work, x)
+				case *ssa.Slice:
+					if x.Max == nil {
+						work = append(work, x)
+					}
+				case *ssa.Call:
+					if calleeName(x) == "builtin:append" && len(x.Call.Args) == 2 && x.Call.Args[0] == v {
+						_, constCut := sl.High.(*ssa.Const)
+						if d, _ := dependsOnArgs(tb.T(x.Call.Args[1])); d {
+							hit, how = x, "data computed from the arguments is appended onto it"
+						} else if constCut && pathCond(tb, g.Blocks[0], x.Block()).Op != "true" {
+							// a fixed-length head of the list, extended on some calls only: the append lands on the
+							// list's own next element and replaces it for every later call
+							hit, how = x, "on some calls an element is appended onto that fixed-length head"
+						} else {
+							work = append(work, x)
+						}
+					}
+				case *ssa.Store:
+					if x.Val != v {
+						continue
+					}
+					// into a field of a local record: the record carries it
+					if a, pth, isLocal := rootAlloc(x.Addr); isLocal && len(pth) > 0 && a.Referrers() != nil {
+						for _, ar := range *a.Referrers() {
+							if ald, isL := ar.(*ssa.UnOp); isL && ald.Op.String() == "*" && ald.X == ssa.Value(a) {
+								work = append(work, ald)
+							}
+						}
+					}
+				case *ssa.Return:
+					hit, how = x, "it is (part of) what the function returns"
+				}
+			}
+		}
+		if hit != nil {
+			c.bad("STATE", "global-backing:"+short1, sl.Pos(), fmt.Sprintf("%s cuts a slice out of package-level %s keeping its capacity, and %s (at %s): the elements live in the package-level backing array, so the next call overwrites what this one produced (and two overlapping calls write the same memory)", short1, gl.Name(), how, c.W.pos(hit.Pos())))
+		}
+	})
+}
+
+// writesFromStart: function h (or a module function it hands the parameter to) re-slices parameter k from its
+// start and appends onto it: whoever shares that parameter's memory is written from offset 0.
+func writesFromStart(h *ssa.Function, k int, depth int) bool {
+	if h == nil || h.Blocks == nil || k >= len(h.Params) || depth > 2 {
+		return false
+	}
+	p := h.Params[k]
+	derived := map[ssa.Value]bool{p: true}
+	changed := true
+	for changed {
+		changed = false
+		eachInstr(h, func(i ssa.Instruction) {
+			switch x := i.(type) {
+			case *ssa.Slice:
+				if derived[x.X] && !derived[x] && x.Max == nil {
+					if x.Low == nil {
+						derived[x] = true
+						changed = true
+					} else if k0, isC := x.Low.(*ssa.Const); isC && k0.Value != nil && k0.Value.ExactString() == "0" {
+						derived[x] = true
+						changed = true
+					}
+				}
+			case *ssa.Phi:
+				if !derived[x] {
+					for _, e := range x.Edges {
+						if derived[e] {
+							derived[x] = true
+							changed = true
+						}
+					}
+				}
+			}
+		})
+	}
+	found := false
+	eachInstr(h, func(i ssa.Instruction) {
+		ci, ok := i.(ssa.CallInstruction)
+		if !ok {
+			return
+		}
+		if cl, isCall := i.(*ssa.Call); isCall && calleeName(cl) == "builtin:append" && len(cl.Call.Args) == 2 {
+			if a0 := cl.Call.Args[0]; derived[a0] && a0 != ssa.Value(p) {
+				found = true
+			}
+			return
+		}
+		if callee := ci.Common().StaticCallee(); callee != nil && inModule(callee) {
+			for j, a := range ci.Common().Args {
+				if derived[a] && writesFromStart(callee, j, depth+1) {
+					found = true
+				}
+			}
+		}
+	})
+	return found
+}
+
+// goSharedScratch: one buffer is handed to several goroutines (started in a loop, or by a worker that passes
+// its own parameter on to the workers it starts) and each of them writes it from its start.
+func goSharedScratch(c *Ctx, g *ssa.Function, short1 string) {
+	eachInstr(g, func(i ssa.Instruction) {
+		gi, ok := i.(*ssa.Go)
+		if !ok {
+			return
+		}
+		h := gi.Call.StaticCallee()
+		if h == nil || !inModule(h) {
+			return
+		}
+		for k, a := range gi.Call.Args {
+			if _, isSlice := a.Type().Underlying().(*types.Slice); !isSlice {
+				continue
+			}
+			v := unwrap(a)
+			several := enclosingLoopHeader(gi.Block()) != nil
+			if p, isP := v.(*ssa.Parameter); isP && h == g && p == g.Params[k] {
+				several = true // the worker hands its own buffer to the workers it starts
+			}
+			if !several {
+				continue
+			}
+			if _, isMk := v.(*ssa.MakeSlice); !isMk {
+				if _, isP := v.(*ssa.Parameter); !isP {
+					continue
+				}
+			}
+			if writesFromStart(h, k, 0) {
+				c.bad("STATE", "go-shared-scratch:"+short1, gi.Pos(), fmt.Sprintf("%s hands the same buffer to every goroutine it starts (%s, argument %d), and each of them re-slices it from the start and appends: goroutines that run side by side build their data in the same bytes", short1, fname(h), k+1))
+				return
+			}
+		}
+	})
 }
